@@ -103,7 +103,8 @@ CHECKS = {
     'C08': dict(
         cat='exploration',
         technique='reference reader vs parse_smtlib; pair grid enumerated '
-        'exhaustively, plus random texts',
+        'exhaustively, plus random texts; black-box slice through the '
+        'executable (--parser-test) on files with LF/CRLF/CR line ends',
         text='Independent SMT-LIB reader compared with parse_smtlib on the '
         'exhaustive grid of lexeme-class pairs x separators x positions and '
         'on random texts.',
@@ -144,7 +145,7 @@ CHECKS = {
         cat='exploration',
         technique='nested-list model vs Node API, in-process and across a '
         'fork pool; histories of pickled inputs through the real ddmin '
-        'worker',
+        'worker; re-duplication after a pickle round trip',
         text='Equality, hash, deepcopy, pickling through a real fork pool and '
         'all traversals/counters compared with a model on nested lists over '
         'random trees and near-equal pairs.',
@@ -154,7 +155,8 @@ CHECKS = {
         technique='id-uniqueness invariant hooked at TaskGenerator/Producer '
         'construction in real runs (incl. runs in which fresh declarations '
         'are accepted or functions inlined); reduplicate vs model on DAGs '
-        'and on histories of calls in one process',
+        'and on histories of calls in one process; hook on the input '
+        'pickled for the workers',
         text='In real runs every list handed to a task generator is checked '
         'for repeated node ids; reduplicate is compared with a model on '
         'generated DAGs with arbitrary sharing.',
@@ -185,7 +187,7 @@ CHECKS = {
         'incl. terms nested beyond the recursion limit; '
         'cvc5 as reference sort checker for same-sort replacements; '
         'answers-now vs answers-after-fresh-collection invariant hooked '
-        'into real runs',
+        'into real runs, snapshots re-answered by a fresh interpreter',
         text='Typed script generator knows the sort of every subterm; '
         'get_sort/get_bv_width must answer unknown or that sort.',
         ref='3/C16'),
@@ -201,7 +203,8 @@ CHECKS = {
     'C18': dict(
         cat='exploration',
         technique='equality of write chains and output bytes over repeated '
-        '-j1 runs perturbed in hash seed, pids and timing',
+        '-j1 runs perturbed in hash seed, pids and timing (incl. a family '
+        'whose fresh names are parse-time ids)',
         text='Each case is run 4 times with different PYTHONHASHSEED, command '
         'delays and injected delays; the sequences of written contents and '
         'the final bytes must be identical.',
